@@ -396,6 +396,17 @@ def check_each_value(ctx):
     for p in t.paths:
         if p.outcome.kind != 'return' or p.outcome.expr is None:
             continue
+        raw = p.outcome.expr
+        if isinstance(raw, ast.Name) and raw.id.startswith('SYM_m'):
+            filled = any(
+                (ev.kind in ('store', 'aug') and isinstance(
+                    ev.node, ast.Subscript) and U(ev.node.value) == raw.id)
+                or (ev.kind == 'call' and method_call(ev.node) and U(
+                    method_call(ev.node)[0]) == raw.id)
+                for ev in p.events)
+            if filled:
+                bad = bad or (p, 'a mapping assembled entry by entry')
+                continue
         e = t.expand(p.outcome.expr)
         parts = e.values if isinstance(e, ast.BoolOp) and isinstance(
             e.op, ast.Or) else [e]
